@@ -2,9 +2,11 @@
    Proof on the file life-cycle model (model/FileRec.v); the operating system's behaviour
    (atomic rename, unlink, kill between system calls) is tied to it by running the real
    recorder under strace: namespace-operation traces and SIGKILL at every system call. *)
+From Coq Require Import String.
 From Coq Require Import String List ZArith Bool.
 From TR Require Import Extracted model.FileRec proofs.FileRecProofs.
 (* constants and wiring read from the Go sources on every run *)
+From TR Require Import model.GoSem model.FileRec model.FileExt translated.FileRecorder proofs.TieFile.
 From TR Require Import proofs.FactsDeps.
 Import ListNotations.
 Close Scope string_scope.
@@ -59,3 +61,25 @@ Example C10_ex :
     [(mkName DOut 2 Temp, Complete [21]); (mkName DOut 1 Cptv, Complete [11; 12])] /\
   recover true true (fops_apply [] (firstn 11 (expand_all calls))) = [(mkName DOut 1 Cptv, Complete [11; 12])].
 Proof. vm_compute. auto. Qed.
+
+(* ---- source tie: cmd/thermal-recorder/cptvfilerecorder.go as it is in /repo now ----
+   coq/translated/FileRecorder.v is regenerated from the Go source on every run; model/FileExt.v gives the
+   calls that leave it (string functions, time, the CPTV writer, rename / remove) their meaning and logs what
+   reaches the file system.  For every well-formed sequence of StartRecording / WriteFrame / StopRecording /
+   Stop() calls on either directory, the file operations the translated recorder causes are exactly the step
+   expansion the theorems above are about: the compressed file is finished and the scratch file unlinked
+   BEFORE the rename to the final name; Stop() removes the temporary after closing it; and a start that fails
+   at file creation or at the header leaves no open writer behind, so nothing unfinished can later receive a
+   final name. *)
+Theorem C10_source_file_operations : forall d cs,
+    fcalls_wf false cs = true ->
+    let w := snd (src_frun d cs) in
+    fops_of w [] (fw_log w) = expand_all (rcalls_of d None [] cs).
+Proof. exact tie_file_ops. Qed.
+
+Theorem C10_source_failed_header_not_kept : forall r w bg th,
+    fw_fail_new w = false -> fw_fail_hdr w = true -> CPTVFileRecorder_writer r = 0 ->
+    sget w (CPTVFileRecorder_outputDir r) = SDir DOut -> CPTVFileRecorder_constantRecorder r = false ->
+    exists w' wr, CPTVFileRecorder_StartRecording fext r bg th w = Ok (r, 1) w' /\
+               last (fw_log w') (EAutoFFC true) = EClose wr.
+Proof. exact tie_start_fails_at_header. Qed.
